@@ -258,7 +258,11 @@ def shrink_case(stream, case, fails):
     improved = True
     while improved and budget > 0:
         improved = False
-        for cand in stream.shrink(case):
+        try:
+            cands = list(stream.shrink(case))
+        except Exception:
+            break                                 # a shrinker that cannot handle the case: keep the case as it is
+        for cand in cands:
             budget -= 1
             if budget <= 0:
                 break
